@@ -399,6 +399,57 @@ def lastAtype (d : Sys K) : Except Err Int :=
   | some a => .ok a.atype
   | none => .error .index
 
+/-! ### an index OBJECT that is not of integer type (`ptd_id=2.0`, `1.5`, `numpy.float64(1.0)`)
+
+  The `elif ptd_id is not None:` branch works on such an object (`ptd_id < 0`, `ptd_id += natoms`, the range test,
+  all in real arithmetic); the first USE of it as an index then fails, whatever its value — also a whole number:
+  `index.pop(ptd_id)` raises TypeError (`vacancy` re-raises it as its own TypeError, `dumbbell` lets it through),
+  `system.atoms.atype[ptd_id]` raises IndexError (`substitutional`).  Never truncated, never accepted. -/
+
+/-- exception class of a refusal (TypeError included). -/
+inductive Refusal
+  | value | assert | index | type
+deriving DecidableEq, Repr
+
+def Refusal.wire : Refusal → String
+  | .value => "err:value"
+  | .assert => "err:assert"
+  | .index => "err:index"
+  | .type => "err:type"
+
+/-- the `elif` branch on a real-valued index `q`, then `after` at its first use as an index. -/
+def floatIndex (n : Nat) (q : K) (after : Refusal) : Refusal :=
+  let q' := if q < 0 then q + ((n : Int) : K) else q
+  if q' < 0 then .value                                   -- 'invalid ptd_id'
+  else if q' < ((n : Int) : K) then after
+  else .value                                             -- 'invalid ptd_id'
+
+def vacancyF (s : Sys K) (pos : Option (V3 K)) (q : K) : Refusal :=
+  match pos with
+  | some _ => .value                                      -- 'pos and ptd_id cannot both be supplied'
+  | none => floatIndex s.atoms.length q .type             -- `index.pop(ptd_id)` → TypeError('ptd_id must be an integer type')
+
+def substitutionalF (s : Sys K) (pos : Option (V3 K)) (q : K) : Refusal :=
+  match pos with
+  | some _ => .value
+  | none => floatIndex s.atoms.length q .index            -- `system.atoms.atype[ptd_id]` → IndexError
+
+def dumbbellF (s : Sys K) (pos : Option (V3 K)) (q : K) : Refusal :=
+  match pos with
+  | some _ => .value
+  | none => floatIndex s.atoms.length q .type             -- `index.pop(ptd_id)` → TypeError
+
+/-- through the dispatcher (its assertions come first). -/
+def pointF (s : Sys K) (ptype : String) (pos : Option (V3 K)) (q : K) (hasDb : Bool) (kwEmpty : Bool) : Refusal :=
+  if ptype = "v" then
+    if hasDb then .assert else if !kwEmpty then .assert else vacancyF s pos q
+  else if ptype = "i" then .assert                        -- 'ptd_id not allowed with ptd_type=='i''
+  else if ptype = "s" then
+    if hasDb then .assert else substitutionalF s pos q
+  else if ptype = "db" then
+    if hasDb then dumbbellF s pos q else .value           -- (no db_vect: numpy-internal failure, not modelled)
+  else .value
+
 /-! ### histories: sequences of insertions with the provenance of every atom -/
 
 inductive Op (K : Type)
